@@ -24,7 +24,7 @@ fn mappings(toks: &[(u32, u32, Option<(u32, u32, u32)>, Option<u32>)]) -> String
 // ------------------------------------------------------------------ C14
 /// Hermes scope lookup and function-map decoding against an independent reading of Metro's format
 pub fn hermes_scope() -> Report {
-    let bound = "function maps with <= 4 entries over lines {1,2,3} x columns {0,2,5} (grouped into ';' groups in every way that keeps a line's entries together or apart), name indices in/out of range; tokens at original (line in 0..3, col in 0..6)";
+    let bound = "function maps with <= 4 entries over lines {1,2,3} x columns {0,2,5} (grouped into ';' groups in every way that keeps a line's entries together or apart), name indices in/out of range; tokens at original (line in 0..3, col in 0..6); 4 three-source maps with null metadata before / between / after function maps and one range token per source, 8 bytecode offsets per source, as decoded and after serialising and decoding again";
     let mut cases = 0u64;
     let poss: Vec<(u32, u32)> = (1..=3).flat_map(|l| [0u32, 2, 5].into_iter().map(move |c| (l, c))).collect();
     // choose increasing subsets of size <= 4
@@ -61,6 +61,31 @@ pub fn hermes_scope() -> Report {
                 if got != want { return r("hermes_scope", bound, cases, Some(format!("function map entries (line,col,name) {entries:?} encoded as {fm:?}: token at original ({},{}) of source {} resolves to {got:?}, expected {want:?}", t.get_src_line(), t.get_src_col(), t.get_src_id()))); }
             }
         }
+    }
+    // bytecode offsets on line 0 through a range mapping, null metadata before and after a function map, and the same answers after serialising and decoding again
+    for metas in [vec![Some(0usize), None, Some(1)], vec![None, Some(0), Some(1)], vec![Some(0), Some(1), None], vec![None, None, Some(0)]] {
+        let fms = ["AAA,UCA,UDA", "AAA;KCC"];           // source A: <global>@1:0 foo@1:10 <global>@1:20 ; source B: <global>@1:0 bar@2:5
+        let fnames = [r#"["<global>","foo"]"#, r#"["<global>","bar"]"#];
+        let meta_json: Vec<String> = metas.iter().map(|m| match m { Some(k) => format!(r#"[{{"names":{},"mappings":"{}"}}]"#, fnames[*k], fms[*k]), None => "null".into() }).collect();
+        // one range token per source on line 0: generated columns 0, 100, 200 -> original (0,0) of source 0, 1, 2
+        let json = format!(r#"{{"version":3,"sources":["s0.js","s1.js","s2.js"],"names":[],"mappings":"AAAA,oGCAA,oGCAA","rangeMappings":"H","x_facebook_sources":[{}]}}"#, meta_json.join(","));
+        cases += 1;
+        let smh = match guarded(|| SourceMapHermes::from_slice(json.as_bytes())) { Ok(Ok(m)) => m, o => return r("hermes_scope", bound, cases, Some(format!("from_slice failed for {json}: {:?}", o.map(|x| x.map(|_| ()))))) };
+        let mut out = vec![]; smh.to_writer(&mut out).ok();
+        let again = match guarded(|| SourceMapHermes::from_slice(&out)) { Ok(Ok(m)) => m, o => return r("hermes_scope", bound, cases, Some(format!("the library does not decode its own Hermes output {}: {:?}", String::from_utf8_lossy(&out), o.map(|x| x.map(|_| ()))))) };
+        let entries: [Vec<(u64, u32, &str)>; 2] = [vec![(1, 0, "<global>"), (1, 10, "foo"), (1, 20, "<global>")], vec![(1, 0, "<global>"), (2, 5, "bar")]];
+        for src in 0..3u32 { for off in [0u32, 4, 9, 10, 15, 19, 20, 35] {
+            let col = src * 100 + off;
+            let want = metas[src as usize].and_then(|k| entries[k].iter().filter(|e| (e.0, e.1) <= (1, off)).last().map(|e| e.2.to_string()));
+            crate::witness(want.is_some());
+            for (what, m) in [("as decoded", &smh), ("after serialising and decoding again", &again)] {
+                let got = match guarded(|| m.get_original_function_name(col).map(|s| s.to_string())) { Ok(g) => g, Err(p) => return r("hermes_scope", bound, cases, Some(format!("get_original_function_name({col}) {what}: {p}"))) };
+                if got != want { return r("hermes_scope", bound, cases, Some(format!("Hermes map with metadata {metas:?} (Some(k) = function map k), range tokens at generated columns 0/100/200: bytecode offset {col} {what} resolves to {got:?}, expected {want:?}"))); }
+                let tok = m.lookup_token(0, col).unwrap();
+                let got2 = m.get_scope_for_token(tok).map(|s| s.to_string());
+                if got2 != want { return r("hermes_scope", bound, cases, Some(format!("Hermes map with metadata {metas:?}: token looked up at (0,{col}) {what} has scope {got2:?}, expected {want:?}"))); }
+            }
+        } }
     }
     r("hermes_scope", bound, cases, None)
 }
@@ -335,14 +360,14 @@ pub fn raw_keys() -> Report {
 type T4 = (u32, u32, Option<(u32, u32, u32)>, Option<u32>);
 /// write -> read gives the same tokens (up to exact consecutive duplicates) and fields
 pub fn roundtrip() -> Report {
-    let bound = "token lists of length <= 4 over positions {0,2}x{0,3}, each token sourceless / with source (2 sources, original positions {0,5}) / with name, duplicates allowed; root present/absent/removed";
+    let bound = "token lists of length <= 4 over positions {0,2}x{0,3}, each token sourceless / with source (2 sources, original positions {0,5}) / with name, duplicates allowed; root present / absent / removed / empty string; 32 whole documents (file, partial contents, ignore list, debug id, range token) alone and as a section of an index map next to a Hermes section and a nested index";
     let mut cases = 0u64;
     let kinds: Vec<(Option<(u32, u32, u32)>, Option<u32>)> = vec![(None, None), (Some((0, 5, 5)), None), (Some((1, 0, 5)), Some(1)), (Some((0, 0, 0)), Some(0))];
     let pos: Vec<(u32, u32)> = vec![(0, 0), (0, 3), (2, 0), (2, 3)];
     let mut lists: Vec<Vec<T4>> = vec![vec![]];
     let mut layer: Vec<Vec<T4>> = vec![vec![]];
     for _ in 0..3 { let mut next = vec![]; for l in &layer { for &p in &pos { if l.last().map_or(false, |t: &T4| (t.0, t.1) > p) { continue; } for k in &kinds { let mut t = l.clone(); t.push((p.0, p.1, k.0, k.1)); next.push(t); } } } lists.extend(next.iter().cloned()); layer = next; }
-    for l in &lists { for rootmode in 0..3 {
+    for l in &lists { for rootmode in 0..4 {
         cases += 1;
         let mut b = SourceMapBuilder::new(None);
         b.add_source("a.js"); b.add_source("b.js"); b.add_name("n0"); b.add_name("n1");
@@ -350,6 +375,7 @@ pub fn roundtrip() -> Report {
         let mut sm = b.into_sourcemap();
         if rootmode >= 1 { sm.set_source_root(Some("root")); }
         if rootmode == 2 { sm.set_source_root(None::<&str>); }
+        if rootmode == 3 { sm.set_source_root(Some("")); }
         let view = |m: &SourceMap| -> Vec<(u32, u32, Option<String>, Option<(u32, u32)>, Option<String>)> {
             let mut v: Vec<_> = m.tokens().map(|t| (t.get_dst_line(), t.get_dst_col(), t.get_source().map(|s| s.to_string()), if t.has_source() { Some((t.get_src_line(), t.get_src_col())) } else { None }, t.get_name().map(|s| s.to_string()))).collect();
             v.dedup(); v };
@@ -359,9 +385,42 @@ pub fn roundtrip() -> Report {
         if view(&sm) != view(&back) { return r("roundtrip", bound, cases, Some(format!("tokens (line,col,source,name) {l:?}, root mode {rootmode}: before {:?} after write/read {:?} (json {})", view(&sm), view(&back), String::from_utf8_lossy(&out)))); }
         let srcs = |m: &SourceMap| (0..m.get_source_count()).map(|i| m.get_source(i).unwrap().to_string()).collect::<Vec<_>>();
         if srcs(&sm) != srcs(&back) { return r("roundtrip", bound, cases, Some(format!("root mode {rootmode}: sources {:?} became {:?}", srcs(&sm), srcs(&back)))); }
+        if sm.get_source_root() != back.get_source_root() { return r("roundtrip", bound, cases, Some(format!("root mode {rootmode} (0 none, 1 'root', 2 set then removed, 3 empty string): source root {:?} became {:?} (json {})", sm.get_source_root(), back.get_source_root(), String::from_utf8_lossy(&out)))); }
         let mut out2 = vec![]; back.to_writer(&mut out2).ok();
         if out != out2 { return r("roundtrip", bound, cases, Some(format!("re-serialising the decoded map changes the bytes: {:?} vs {:?}", String::from_utf8_lossy(&out), String::from_utf8_lossy(&out2)))); }
     } }
+    // whole documents: file, names, contents (partial), ignore list, debug id; index maps whose sections are regular / Hermes / nested index maps
+    {
+        use sourcemap::decode_slice;
+        let hermes_doc = r#"{"version":3,"sources":["h.js"],"names":[],"mappings":"AAAA,KAAK","x_facebook_sources":[[{"names":["<global>","foo"],"mappings":"AAA,GCA"}]]}"#;
+        let full = |m: &SourceMap| (m.get_file().map(|s| s.to_string()), m.get_source_root().map(|s| s.to_string()), m.sources().map(|s| s.to_string()).collect::<Vec<_>>(), m.names().map(|s| s.to_string()).collect::<Vec<_>>(),
+            (0..m.get_source_count()).map(|i| m.get_source_contents(i).map(|s| s.to_string())).collect::<Vec<_>>(), m.ignore_list().cloned().collect::<Vec<u32>>(), m.get_debug_id().map(|d| d.to_string()),
+            m.tokens().map(|t| (t.get_dst(), t.get_src_id(), t.get_src(), t.get_name_id(), t.is_range())).collect::<Vec<_>>());
+        for cmask in 0u32..4 { for with_file in [false, true] { for ign in [false, true] { for dbg in [false, true] {
+            cases += 1;
+            let toks = vec![RawToken { dst_line: 0, dst_col: 0, src_line: 1, src_col: 2, src_id: 0, name_id: 0, is_range: false }, RawToken { dst_line: 1, dst_col: 4, src_line: 3, src_col: 0, src_id: 1, name_id: !0, is_range: true }];
+            let cts: Vec<Option<std::sync::Arc<str>>> = (0..2).map(|i| if cmask >> i & 1 == 1 { Some(format!("text {i}").into()) } else { None }).collect();
+            let mut sm = SourceMap::new(if with_file { Some("out.js".into()) } else { None }, toks, vec!["nm".into()], vec!["a.js".into(), "b.js".into()], Some(cts));
+            if ign { sm.add_to_ignore_list(1); }
+            if dbg { sm.set_debug_id(Some("00000000-0000-0000-0000-00000000000a".parse().unwrap())); }
+            let mut out = vec![]; sm.to_writer(&mut out).ok();
+            let back = match guarded(|| SourceMap::from_slice(&out)) { Ok(Ok(m)) => m, o => return r("roundtrip", bound, cases, Some(format!("document {} does not decode: {:?}", String::from_utf8_lossy(&out), o.map(|x| x.map(|_| ()))))) };
+            if full(&sm) != full(&back) { return r("roundtrip", bound, cases, Some(format!("document {}: (file, root, sources, names, contents, ignore list, debug id, tokens) {:?} reads back as {:?}", String::from_utf8_lossy(&out), full(&sm), full(&back)))); }
+            // the same map as a section of an index map, next to a Hermes section and a nested index
+            let hermes = match decode_slice(hermes_doc.as_bytes()) { Ok(m) => m, Err(e) => return r("roundtrip", bound, cases, Some(format!("hermes fixture: {e}"))) };
+            let nested = SourceMapIndex::new(None, vec![SourceMapSection::new((0, 0), None, Some(DecodedMap::Regular(sm.clone())))]);
+            let idx = SourceMapIndex::new(Some("idx.js".into()), vec![SourceMapSection::new((0, 0), None, Some(DecodedMap::Regular(sm.clone()))), SourceMapSection::new((10, 0), None, Some(hermes)), SourceMapSection::new((20, 0), None, Some(DecodedMap::Index(nested)))]);
+            let mut o2 = vec![]; idx.to_writer(&mut o2).ok();
+            let iback = match guarded(|| decode_slice(&o2)) { Ok(Ok(DecodedMap::Index(i))) => i, o => return r("roundtrip", bound, cases, Some(format!("index document {} does not decode as an index map: {:?}", String::from_utf8_lossy(&o2), o.map(|x| x.map(|_| ()).map_err(|e| e.to_string()))))) };
+            let kinds: Vec<&str> = iback.sections().map(|s| match s.get_sourcemap() { Some(DecodedMap::Regular(_)) => "regular", Some(DecodedMap::Hermes(_)) => "hermes", Some(DecodedMap::Index(_)) => "index", None => "none" }).collect();
+            if kinds != ["regular", "hermes", "index"] { return r("roundtrip", bound, cases, Some(format!("index map with sections [regular, hermes, index] reads back with sections {kinds:?} (json {})", String::from_utf8_lossy(&o2)))); }
+            for (s0, s1) in idx.sections().zip(iback.sections()) { match (s0.get_sourcemap(), s1.get_sourcemap()) {
+                (Some(DecodedMap::Regular(a)), Some(DecodedMap::Regular(b))) => if full(a) != full(b) { return r("roundtrip", bound, cases, Some("regular section of an index map changed on write/read".into())); },
+                (Some(DecodedMap::Hermes(a)), Some(DecodedMap::Hermes(b))) => { for c in [0u32, 3, 5, 9] { if a.get_original_function_name(c) != b.get_original_function_name(c) { return r("roundtrip", bound, cases, Some(format!("Hermes section of an index map: function at offset {c} was {:?}, after write/read {:?}", a.get_original_function_name(c), b.get_original_function_name(c)))); } } },
+                _ => {} } }
+            if idx.lookup_token(10, 5).map(|t| t.get_src()) != iback.lookup_token(10, 5).map(|t| t.get_src()) || idx.lookup_token(21, 9).map(|t| t.get_src()) != iback.lookup_token(21, 9).map(|t| t.get_src()) { return r("roundtrip", bound, cases, Some("index lookups change on write/read".into())); }
+        } } } }
+    }
     r("roundtrip", bound, cases, None)
 }
 
